@@ -1,6 +1,8 @@
 package fakes
 
 import (
+	"verif.local/harness/vrt"
+
 	"crypto/rand"
 	"errors"
 	"fmt"
@@ -19,7 +21,8 @@ type SecretFactory struct {
 
 	mu       sync.Mutex
 	secrets  []*Secret
-	FailNext int // n-th next creation fails (1 = the very next)
+	FailNext int                         // n-th next creation fails (1 = the very next)
+	LogUse   bool                        // log every successful access (scheduler-driven runs)
 	OnCreate func(kind string, b []byte) // observer of every new secret's bytes (taint tracking)
 
 	DoubleClose   int
@@ -109,10 +112,13 @@ func (s *Secret) access() error {
 		s.f.mu.Lock()
 		s.f.UseAfterClose++
 		s.f.mu.Unlock()
-		s.f.W.Emit(Event{"e": "use-after-close", "p": s.f.Proc, "sid": s.ID, "op": s.f.op()})
+		s.f.W.Emit(Event{"e": "use-after-close", "p": s.f.Proc, "sid": s.ID, "op": s.f.op(), "g": vrt.GID()})
 		return errClosed
 	}
 	s.users++
+	if s.f.LogUse {
+		s.f.W.Emit(Event{"e": "use", "p": s.f.Proc, "sid": s.ID, "g": vrt.GID()})
+	}
 	return nil
 }
 
